@@ -38,6 +38,9 @@ CHECKS.update({
               "Base sets whose type is rejected are skipped and counted.", "3/C14"),
  "C15": _enum("Every member of the alignment family plus two alignments with more than 1024 output lines is written in all three formats, to a file and to stdout, and parsed by independent readers: 60-column wrapping/blocks, every sequence in every block in order, headers, MSF length, per-row and total GCG checksums, molecule type.",
               "Date ignored; checksums recomputed over the rows as written.", "3/C15"),
+ "C10": dict(cat="model_checking", tech="bounded-exhaustive enumeration of inputs with a hook snapshot at every guide-tree node, plus the same oracle on every explored schedule (vgomp)",
+   text="At every node completion (MERGE_END hook) the member gap vectors are copied; after the run every snapshot must equal the projection of the final alignment onto the node's members. Enumerated over all tuples of 3..5 sequences up to a length bound x 3 penalty presets, k-means trees of 104/130/230 sequences and the 99..513-sequence shapes; and evaluated on every schedule of a subset of the C02 exploration.",
+   note="Snapshot member ids are mapped to final rows by re-deriving the canonical order (distinct names by construction).", ref="3/C10"),
  "C17": _enum("For every listed set of 2..4 uniquely named short sequences ALL alignments are generated; every ordered pair (reference, test) is compared by kalign_msa_compare under row permutations, all-gap columns and three file renderings (and a run-produced reference) and judged by an independent implementation of the score definition.",
               "Files always contain a gap character (premise); tolerance 1e-4 relative.", "3/C17"),
 })
